@@ -9,7 +9,8 @@ encoding/json it relies on; OpenPGP is the abstract `Scheme` below: its correctn
 unforgeability are hypothesis FIELDS of the structure (never axioms), so every theorem reads
 "for every signature scheme with these properties, for every environment, for every document …".
 
-* `C16_gen_*`                        the literals of the source are those of the model (regenerated facts)
+* `C16_gen_*`                        the literals of the source are those of the model, and VerifySignature
+                                     rejects on ANY library error (regenerated facts)
 * `C16_last_separator_is_the_appended_one`, `C16_split_signed`, `C16_sign_then_split`
                                      BP/BPJ/BS of a signed document are exactly what was signed, for ALL payloads
 * `C16_signed_doc_is_json_with_original_fields`, `C16_signed_doc_lookup`
@@ -75,6 +76,16 @@ theorem C16_gen_separator :
 theorem C16_gen_reArmor :
     Gen.reArmorStrings = [[61], [], armorBegin, [37, 115, 10], 37 :: 115 :: armorEnd] ∧
     Gen.reArmorInts = [1, 0, 0, 60, 0] := by decide
+
+/-- the model treats EVERY error of the OpenPGP library in `VerifySignature` as a rejection
+(`check … = some cls`, whatever `cls`): in the source, each error-returning library call of
+`VerifySignature` (`packet.Read`, `PublicKey.VerifySignature`) assigns `err` and is directly followed
+by `if err != nil { return vr.fail(…) }` – no error kind (e.g. the `InvalidArgumentError` for a
+signature of another public-key algorithm than the named key's) can fall through to `return true`. -/
+theorem C16_gen_verify_rejects_any_library_error :
+    Gen.verifySigErrGuards =
+      [([82, 101, 97, 100], true),
+       ([86, 101, 114, 105, 102, 121, 83, 105, 103, 110, 97, 116, 117, 114, 101], true)] := by decide
 
 /-- the side condition of the split theorem, on the separator as it is in the source: its first byte
 occurs neither in its remainder, nor in the `"}\n` that Sign appends, nor in the armor alphabet -/
